@@ -30,7 +30,7 @@ for kind in ('seeded', 'reverts'):
         rows.append((kind, name, meta, r))
 with open(f'{root}/seeded/RESULTS.md', 'w') as f:
     f.write('# Sensitivity runs: which checks catch which seeded change\n\n')
-    f.write('Written by tools/seed_matrix.py from the output of tools/mutants.sh (quick tiers, VERIF_SEED=0, harness built\nagainst a patched scratch copy of /repo). Checks run per change in this final run: the check of the targeted\nproperty and every check that had caught the change in an earlier run of all twenty (for a change nothing had\ncaught: C01, C06, C07, C09, C12, C14, C17, C19 and the targeted one); meta.json lists them as checks_run. `target` is the property the\nchange was written to break (sub-agents were given only that property\'s text).\n\n')
+    f.write('Written by tools/seed_matrix.py from the output of tools/mutants.sh (quick tiers, VERIF_SEED=0, harness built\nagainst a patched scratch copy of /repo). Checks run per change in this final run: the check of the targeted\nproperty and every check that had caught the change in an earlier run of all twenty (`seeded/plan.txt`, the `-p` argument of tools/mutants.sh; for a change nothing had\ncaught: C01, C06, C07, C09, C12, C14, C17, C19 and the targeted one); meta.json lists them as checks_run. `target` is the property the\nchange was written to break (sub-agents were given only that property\'s text).\n\n')
     f.write('| seed | target | what was changed | caught by (quick tier) |\n|---|---|---|---|\n')
     for kind, name, meta, r in rows:
         target = meta.get('property', '-')
